@@ -140,6 +140,40 @@ def boolmix_family():
             yield tmpl.format(o=other)
 
 
+# (e) '#' written around ONE plain assignment: either the compiler refuses it (as it refuses '#' on any other single element), or every value
+#     given in the input arrives in the model - never a grammar that compiles and drops the assignment
+UGROUP1 = [("M: 'b' (a=INT)# 'e';", "b 3 e", 3), ("M: 'b' a=INT# 'e';", "b 3 e", 3), ("M: 'b' ((a=INT))# 'e';", "b 3 e", 3), ("M: 'b' (a=INT)#[','] 'e';", "b 3 e", 3),
+           ("M: 'b' (r=[M])# 'e' name=ID;", "b x e x", "x"), ("M: 'b' (s=S)# 'e'; S: 's' n=INT;", "b s 4 e", 4), ("M: 'b' (a=INT)# a=INT 'e';", "b 3 4 e", [3, 4])]
+
+
+def work_ugroup1(arg):
+    from textx import metamodel_from_str
+    from textx.exceptions import TextXError
+
+    u = Unit()
+    for gtext, text, want in arg:
+        cid = ["ugroup-single-assignment", gtext]
+        try:
+            mm = metamodel_from_str(gtext)
+        except TextXError as e:
+            outcome = "refused: " + str(e.message)[:60]
+            ok = True
+        except Exception as e:
+            outcome, ok = "%s: %s" % (type(e).__name__, str(e)[:80]), False
+        else:
+            try:
+                m = mm.model_from_str(text)
+                got = getattr(m, "a", None) if "a=" in gtext else (getattr(m.r, "name", None) if "r=" in gtext else getattr(m.s, "n", None))
+                outcome, ok = "loaded %r" % (got,), got == want
+            except Exception as e:
+                outcome, ok = "load: %s: %s" % (type(e).__name__, str(e)[:80]), False
+        u.case(cid, nontrivial=True, sample={"grammar": gtext, "input": text, "outcome": outcome})
+        u.count("ugroup-single-assignment " + outcome.split(":")[0].split(" ")[0])
+        if not ok:
+            u.fail(cid, {"ugroup1": [gtext, text, want]}, sig="ugroup single assignment", what="%s | input %r | expected refusal or value %r | %s" % (gtext, text, want, outcome))
+    return u
+
+
 def work_boolmix(arg):
     from textx import metamodel_from_str
     from textx.exceptions import TextXError
@@ -178,6 +212,7 @@ def run(ctx):
     c01.selfcheck()
     bm = list(boolmix_family())
     ctx.pmap(work_boolmix, [bm[i:i + 7] for i in range(0, len(bm), 7)])
+    ctx.pmap(work_ugroup1, [UGROUP1])
     nf = list(names_family())
     ctx.pmap(work_names, [nf[i:i + 5] for i in range(0, len(nf), 5)])
     bodies = list(family(ctx.tier))
@@ -194,6 +229,9 @@ def run(ctx):
 
 
 def replay(p):
+    if "ugroup1" in p:
+        u = work_ugroup1([tuple(p["ugroup1"])])
+        return not u.fails, {"failures": [f["what"] for f in u.fails]}
     if "boolmix" in p:
         return replay_boolmix(p["boolmix"])
     return c01.replay(p)
